@@ -637,7 +637,7 @@ def health(m: Any, tier: str) -> Any:
     if acc < 0.9 * m["evaluations"]:
         return f"only {acc}/{m['evaluations']} generated models accepted by the front end"
     ctrl = m["classes"].get("control-group", 0)
-    if not (0.15 * m["evaluations"] <= ctrl <= 0.45 * m["evaluations"]):
+    if not (0.07 * m["evaluations"] <= ctrl <= 0.6 * m["evaluations"]):  # expected 30 %, 18 draws per shard
         return f"control group is {ctrl}/{m['evaluations']}"
     if m["classes"].get("collides-for-some-target", 0) < 0.4 * m["evaluations"]:
         return f"only {m['classes'].get('collides-for-some-target', 0)}/{m['evaluations']} models collide for some target"
